@@ -234,11 +234,13 @@ def target_case(rng, kind):
         s = {"op": "natural_join", "src": T("d1"), "b": T("d2"), "on": [[a, b] for a, b in zip(lk, rk)], "jointype": jt}
         return s, [d1, d2], {"kind": "join", "lk": lk, "rk": rk, "shared": [c for c, _ in shared], "jointype": jt}
     if kind == "join_overlap":
-        # the listed finding C16-pandas-overlap-leftover-column: a left key name is also a non-key column of the right table
-        d1 = mk_table(rng, "d1", [("p", "int"), ("a", "float")], rng.choice([1, 2, 3]), 0.0, uid="lid")
-        d2 = mk_table(rng, "d2", [("q", "int"), ("p", "int"), ("b", "float")], rng.choice([1, 2, 3]), 0.0, uid="rid")
-        s = {"op": "natural_join", "src": T("d1"), "b": T("d2"), "on": [["p", "q"]], "jointype": rng.choice(["INNER", "LEFT", "RIGHT", "FULL"])}
-        return s, [d1, d2], {"kind": "join_overlap"}
+        # a left key name that is also a non-key column of the right table (the former finding C16-pandas-overlap-leftover-column,
+        # fixed by /repo 756a9c2): the suffixed copy must be folded back like every other shared column
+        d1 = mk_table(rng, "d1", [("p", "int"), ("a", "float")], rng.choice([0, 1, 2, 3]), rng.choice([0.0, 0.3]), uid="lid")
+        d2 = mk_table(rng, "d2", [("q", "int"), ("p", "int"), ("b", "float")], rng.choice([0, 1, 2, 3]), rng.choice([0.0, 0.3]), uid="rid")
+        jt = rng.choice(["INNER", "LEFT", "RIGHT", "FULL"])
+        s = {"op": "natural_join", "src": T("d1"), "b": T("d2"), "on": [["p", "q"]], "jointype": jt}
+        return s, [d1, d2], {"kind": "join", "lk": ["p"], "rk": ["q"], "shared": ["p"], "jointype": jt, "overlap": True}
     if kind == "project":
         # null-heavy keys, empty inputs, no ops, constants, ungrouped
         spec = [("g", rng.choice(["int", "str"])), ("h", rng.choice(["int", "str"])), ("x", "float"), ("y", "int")]
@@ -345,7 +347,11 @@ def o_columns(case, res):
 
 
 SCRATCH_USER_NAMES = ["_data_algebra_temp_g", "_data_algebra_orig_index", "data_algebra_extend_temp_col_0", "_data_table_temp_col",
-                      "data_algebra_project_temp_col_0", "data_algebra_temp_merge_col"]
+                      "data_algebra_project_temp_col_0", "data_algebra_temp_merge_col", "data_algebra_temp_null_key_col"]
+# the scratch names each step kind uses, tried one by one on the targeted shapes of that kind
+SCRATCH_BY_KIND = {"wextend": ["_data_algebra_temp_g", "_data_algebra_orig_index", "data_algebra_extend_temp_col_0"],
+                   "project": ["_data_table_temp_col", "data_algebra_project_temp_col_0"],
+                   "join": ["data_algebra_temp_merge_col", "data_algebra_temp_null_key_col"]}
 
 
 def rename_script(s, old, new, memo=None):
@@ -410,6 +416,12 @@ def o_no_capture(case, res, rng):
     return None if why is None else f"renaming column {old!r} to the scratch name {new!r} changes the result: {why}"
 
 
+def keys_match(a, b, lk, rk):
+    """the SQL join condition: equal keys, and a null key matches nothing"""
+    ka, kb = [ncell(a[c]) for c in lk], [ncell(b[c]) for c in rk]
+    return ka == kb and all(v is not None for v in ka)
+
+
 def o_join(case, res, info):
     """every result row, identified through lid / rid, carries COALESCE(left, right) in each shared non-key column, the left row's
     own cells elsewhere, and the pair satisfies the join condition (null keys match on Pandas: listed under C16)"""
@@ -425,8 +437,8 @@ def o_join(case, res, info):
         if (li is not None and a is None) or (ri is not None and b is None) or (a is None and b is None):
             return f"result row with lid={li} rid={ri} corresponds to no pair of input rows"
         seen.append((li, ri))
-        if a is not None and b is not None and [ncell(a[c]) for c in lk] != [ncell(b[c]) for c in rk]:
-            return f"joined rows lid={li} rid={ri} do not agree on the keys"
+        if a is not None and b is not None and not keys_match(a, b, lk, rk):
+            return f"joined rows lid={li} rid={ri} do not agree on the keys (a null key matches nothing)"
         for c in res.columns:
             if c in ("lid", "rid"):
                 continue
@@ -437,13 +449,13 @@ def o_join(case, res, info):
                 return f"row lid={li} rid={ri}: column {c!r} is {ncell(r[c])!r}, COALESCE(left, right) is {want!r} (left {va!r}, right {vb!r})"
     want_pairs = []
     for li, a in lrow.items():
-        ms = [ri for ri, b in rrow.items() if [ncell(a[c]) for c in lk] == [ncell(b[c]) for c in rk]]
+        ms = [ri for ri, b in rrow.items() if keys_match(a, b, lk, rk)]
         want_pairs += [(li, ri) for ri in ms]
         if not ms and jt in ("LEFT", "FULL"):
             want_pairs.append((li, None))
     if jt in ("RIGHT", "FULL"):
         for ri, b in rrow.items():
-            if not any([ncell(a[c]) for c in lk] == [ncell(b[c]) for c in rk] for a in lrow.values()):
+            if not any(keys_match(a, b, lk, rk) for a in lrow.values()):
                 want_pairs.append((None, ri))
     key = lambda p: tuple((0, 0) if x is None else (1, x) for x in p)
     if sorted(seen, key=key) != sorted(want_pairs, key=key):
@@ -612,7 +624,7 @@ def run_oracles(chk, case, res, err, expr_raise, info, rng):
     whys = []
     kind = (info or {}).get("kind", "random")
     if res is None:
-        if not expr_raise and kind != "join_overlap":
+        if not expr_raise:
             whys.append(("raises", f"the Pandas executor raises on a pipeline the builder accepted: {err}"))
     else:
         w = o_columns(case, res)
@@ -649,7 +661,7 @@ def sig_of(case, cause, err, info):
         sig["error"] = (err or "").split(":")[0]
         sig["max_of_empty"] = "max() iterable argument is empty" in (err or "")
         sig["root"] = case.script["op"]
-    if kind == "join_overlap":
+    if (info or {}).get("overlap"):
         sig["keyspec"] = "overlap"
     return sig
 
@@ -776,6 +788,12 @@ def prim_cases(rng, n):
         # isnull / loc set
         c = rng.choice(cols)
         out.append(("isnull", "PIsnull %s %s (Some %s)" % (cstr(c), T(df), clist([cbool(bool(b)) for b in df[c].isnull()]))))
+        cs2 = rng.sample(cols, rng.randint(1, len(cols))) + (["zz"] if rng.random() < 0.1 else [])
+        try:
+            ia = "(Some %s)" % clist([cbool(bool(b)) for b in df[cs2].isnull().any(axis=1).to_numpy()])
+        except Exception:
+            ia = "None"
+        out.append(("isnull_any", "PIsnullAny %s %s %s" % (semconv.sl(cs2), T(df), ia)))
         same = [x for x, ty in spec if ty == dict(spec)[c] and x != c]
         if same:
             c2 = rng.choice(same)
@@ -946,7 +964,7 @@ def run(chk):
     for kind in TARGETS + ["join_overlap"]:
         k = 0
         tries = 0
-        want = N_TARGET[chk.tier] if kind != "join_overlap" else 3
+        want = N_TARGET[chk.tier] if kind != "join_overlap" else max(6, N_TARGET[chk.tier] // 4)
         while k < want and tries < want * 10:
             tries += 1
             try:
@@ -984,8 +1002,6 @@ def run(chk):
             if chk.impl_violation(why, rep, sig_of(small, cause, e2 if r2 is None else err, info)):
                 n_viol += 1
         # correspondence term
-        if kind == "join_overlap":
-            continue                                  # the listed finding: the transcription reproduces it (Props/PEXEC.v), not compared here
         if res is None and expr_raise:
             chk.dist("skipped_expression_raise")
             continue
